@@ -35,6 +35,7 @@ type frame struct {
 	cur    *ssa.BasicBlock
 	curSt  *State
 	prevHdr *hdrInfo
+	callOrd map[string]int
 	tuples map[ssa.Value][]Val
 	safety bool // emit nopanic obligations
 }
@@ -1079,7 +1080,10 @@ func (f *frame) runBlock(b *ssa.BasicBlock, st *State, be map[[2]int]bool, loopO
 			loc := e.alloc(st, elem, true, fmt.Sprintf("((as const (Array %s %s)) %s)", e.idxSort(), e.sc.sortOf(elem), e.sc.zero(elem)))
 			f.vals[v] = Val{term: e.define(v.Name(), "Slice", fmt.Sprintf("(mk_slice %s %s %s %s)", loc, e.idxLit(0), lnT, cpT)), typ: v.Type()}
 		case *ssa.MakeMap:
-			f.vals[v] = Val{term: e.declare("map", "Int"), typ: v.Type()}
+			// maps are opaque handles; only their entry count is modelled (ghost heap G_maplen)
+			h := e.nextLoc()
+			f.vals[v] = Val{term: h, typ: v.Type()}
+			e.setMapLen(st, h, e.idxLit(0))
 		case *ssa.If:
 			c := f.val(v.Cond).term
 			f.edge[[2]int{b.Index, b.Succs[0].Index}] = c
@@ -1158,7 +1162,14 @@ func (f *frame) runBlock(b *ssa.BasicBlock, st *State, be map[[2]int]bool, loopO
 				f.vals[v] = Val{term: e.declare("iface", to), typ: v.Type()}
 			}
 		case *ssa.MapUpdate:
-			// opaque
+			// content is opaque; afterwards the map has at least one entry
+			m := f.val(v.Map)
+			n := e.declare("maplen", e.idxSort())
+			e.assume(reach, e.idxLe(e.idxLit(1), n))
+			if e.sc.arith == "bv" {
+				e.assume(reach, e.idxLe(n, bvLit(maxLen, 64)))
+			}
+			e.setMapLen(st, m.term, n)
 		case *ssa.TypeAssert:
 			f.doTypeAssert(v, reach)
 		case *ssa.MakeInterface:
@@ -1489,4 +1500,22 @@ func isRangeLoop(h *ssa.BasicBlock) bool {
 		}
 	}
 	return false
+}
+
+// ---- maps ------------------------------------------------------------------------
+
+const mapLenHeap = "G_maplen"
+
+func (e *Engine) mapLenTerm(st *State) string {
+	e.hsort[mapLenHeap] = fmt.Sprintf("(Array Int %s)", e.idxSort())
+	return e.heapByName(st, mapLenHeap)
+}
+
+func (e *Engine) setMapLen(st *State, m, n string) {
+	h := e.mapLenTerm(st)
+	st.heaps[mapLenHeap] = e.define(mapLenHeap, e.hsort[mapLenHeap], fmt.Sprintf("(store %s %s %s)", h, m, n))
+}
+
+func (e *Engine) mapLen(st *State, m string) string {
+	return fmt.Sprintf("(select %s %s)", e.mapLenTerm(st), m)
 }
